@@ -219,12 +219,24 @@ def substitution_rules(run):
     g = run.anchor(R, "expr::eval::EvalContext::get_token_subst")
     h = run.anchor(R, "expr::eval::EvalContext::hygienize_locals_for_asm_subst")
     if g is not None and h is not None:
-        gets = _calls(g, "HashMap::get")
+        # the two lookups (get / contains_key), in order: argument texts first, by-value locals second
+        gets = [(b, t) for b, t in g.calls() if re.search(r"HashMap::<.*>::(get|contains_key)(::<.*>)?$", t.get("callee") or "") or short_callee(t) in ("HashMap::get", "HashMap::contains_key")]
         names = [deep(g, t["args"][0]) for b, t in gets]
         okg = names[:2] == ["P1.token_substs", "P1.locals"] and len(_calls(g, "EvalContext::hygienize_name_for_asm_subst")) == 1 if len(names) >= 2 else False
         if okg:
-            s1 = _switch_on_call_result(g, gets[0][0], gets[0][1])
-            okg = s1 is not None and g.edge_dominates(s1[2], s1[1], gets[1][0])
+            # the second lookup only happens when the first found nothing
+            from rules_sym import option_tests
+            t0 = gets[0][1]
+            miss_edge = None
+            if short_callee(t0).endswith("contains_key"):
+                bt = T.bool_test(g, t0)
+                if bt:
+                    miss_edge = (bt[2], bt[1])
+            else:
+                ot = option_tests(g, lambda d: d.startswith("HashMap::get(P1.token_substs"))
+                if ot:
+                    miss_edge = (ot[0][0], ot[0][2])
+            okg = miss_edge is not None and g.edge_dominates(miss_edge[0], miss_edge[1], gets[1][0])
         run.check(okg, R, R + "|subst|text-before-value", g.loc(), "`{name}` is replaced by the argument's text when there is one, otherwise by the hygienised name of the local",
                   "get_token_subst no longer prefers the argument text over the by-value local")
         hn = _calls(h, "EvalContext::hygienize_name_for_asm_subst")
@@ -273,7 +285,12 @@ def fn_rules(run):
                 a = [deep(f, x, 7) for x in sl[0][1]["args"]]
                 m1 = re.search(r"\.params, (.*)\)\.name$", a[1])
                 m2 = re.search(r"^Index::index\(P6\.args, (.*)\)\.value$", a[2])
-                ok = a[0] == "EvalContext::new_deepened(P6.eval_ctx)" and bool(m1) and bool(m2) and m1.group(1) == m2.group(1)
+                same_index = bool(m1) and bool(m2) and m1.group(1) == m2.group(1)
+                if not same_index and m2:
+                    # `for (i, param) in params.iter().enumerate()`: parameter = item .1, argument index = item .0 of the same item
+                    e1 = re.search(r"^(Iterator::next\(Iterator::enumerate\(.*\.params\)\)\)@Some\.0)\.1\.name$", a[1])
+                    same_index = bool(e1) and m2.group(1) == e1.group(1) + ".0"
+                ok = a[0] == "EvalContext::new_deepened(P6.eval_ctx)" and same_index
                 why = "parameters are not bound, by position, to the argument values in the fresh context (%s)" % a
     run.check(ok, RR, RR + "|call", f.loc(), "a user function call checks the depth, checks the argument count, binds parameter i to argument i in a fresh deeper context and evaluates the body there",
               "eval_fn: %s" % why)
